@@ -223,6 +223,22 @@ var families = []family{
 	{"fragment-grid", func(n int) string {
 		return gridDoc("{ start { next { ...F0 } next { ...G0 } } }", n)
 	}, 64, true},
+	{"alternating-exclusivity-ladder", func(n int) string {
+		// the pair (P(i+1), Q(i+1)) is reached from (Pi, Qi) alternately under
+		// parents that may overlap (T0/T0) and parents that exclude each other (T0/T1)
+		var b strings.Builder
+		b.WriteString("{ start { ...P0 ...Q0 } }")
+		for i := 0; i < n; i++ {
+			fmt.Fprintf(&b, " fragment P%d on Node { ... on T0 { next { ...P%d } } }", i, i+1)
+			fmt.Fprintf(&b, " fragment Q%d on Node {", i)
+			for k := 0; k < 2; k++ {
+				fmt.Fprintf(&b, " ... on T0 { next { ...Q%d } } ... on T1 { next { ...Q%d } }", i+1, i+1)
+			}
+			b.WriteString(" }")
+		}
+		fmt.Fprintf(&b, " fragment P%d on Node { id } fragment Q%d on Node { id }", n, n)
+		return b.String()
+	}, 64, true},
 	{"repeated-key-fragment-chain", func(n int) string {
 		// the same response key twice per level, each occurrence spreading the next fragment
 		var b strings.Builder
